@@ -11,6 +11,7 @@
 //   -DCFG_ST=<size type>      size_type of the test allocator (default std::size_t)
 #include <gch/small_vector.hpp>
 
+#include <algorithm>
 #include <cassert>
 #include <climits>
 #include <cstdio>
@@ -307,9 +308,13 @@ struct ta
     wmsg ("C04", "deallocate of a pointer that is not a live block");
   }
 
-  friend bool operator== (const ta& a, const ta& b) noexcept { return AE || a.id == b.id; }
-  friend bool operator!= (const ta& a, const ta& b) noexcept { return ! (a == b); }
 };
+template <typename T, typename U, bool POCCA, bool POCMA, bool POCS, bool AE, bool SOCCC, typename SizeT>
+inline bool operator== (const ta<T, POCCA, POCMA, POCS, AE, SOCCC, SizeT>& a, const ta<U, POCCA, POCMA, POCS, AE, SOCCC, SizeT>& b) noexcept
+{ return AE || a.id == b.id; }
+template <typename T, typename U, bool POCCA, bool POCMA, bool POCS, bool AE, bool SOCCC, typename SizeT>
+inline bool operator!= (const ta<T, POCCA, POCMA, POCS, AE, SOCCC, SizeT>& a, const ta<U, POCCA, POCMA, POCS, AE, SOCCC, SizeT>& b) noexcept
+{ return ! (a == b); }
 
 #define ABIT(k) (((CFG_A) >> (k)) & 1)
 static const bool A_POCCA = ABIT (4), A_POCMA = ABIT (3), A_POCS = ABIT (2), A_AE = ABIT (1), A_SOCCC = ABIT (0);
@@ -776,8 +781,8 @@ static std::string shadow_apply (const Cmd& c, bool& known)
   else if (o == "asc") s = g_shadow[c.y];
   else if (o == "asm") s = g_shadow[c.y];
   else if (o == "swp") s.swap (g_shadow[c.y]);
-  else if (o == "at") { if (static_cast<std::size_t> (c.p) < s.size ()) out << "v" << s[static_cast<std::size_t> (c.p)]; else out << "!range"; }
-  else if (o == "get") out << "v" << s[static_cast<std::size_t> (c.p)];
+  else if (o == "at") { if (static_cast<std::size_t> (c.p) < s.size ()) { if (s[static_cast<std::size_t> (c.p)] == HUSK) out << "v~"; else out << "v" << s[static_cast<std::size_t> (c.p)]; } else out << "!range"; }
+  else if (o == "get") { if (s[static_cast<std::size_t> (c.p)] == HUSK) out << "v~"; else out << "v" << s[static_cast<std::size_t> (c.p)]; }
   return out.str ();
 }
 
@@ -818,6 +823,86 @@ static Snapshot snap (int x)
   return s;
 }
 
+// ------------------------------------------------------------------------------------------------
+// C16: comparisons and non-member erase on int / weakly ordered elements (independent of the container slots)
+// ------------------------------------------------------------------------------------------------
+struct Wk   // has < and == but no <=>: selects the weak-order fallback of operator<=> in C++20
+{
+  int v;
+  Wk (int x = 0) : v (x) { }
+  friend bool operator< (const Wk& a, const Wk& b) { return a.v < b.v; }
+  friend bool operator== (const Wk& a, const Wk& b) { return a.v == b.v; }
+};
+typedef ta<int, ABIT (4), ABIT (3), ABIT (2), ABIT (1), ABIT (0), CFG_ST> AllocI;
+typedef ta<Wk, ABIT (4), ABIT (3), ABIT (2), ABIT (1), ABIT (0), CFG_ST> AllocW;
+
+template <typename L, typename R>
+static std::string cmp_bits (const L& l, const R& r)
+{
+  std::ostringstream o;
+  o << "eq=" << (l == r) << " ne=" << (l != r) << " lt=" << (l < r) << " le=" << (l <= r) << " gt=" << (l > r) << " ge=" << (l >= r);
+#if defined (__cpp_impl_three_way_comparison) && defined (__cpp_lib_three_way_comparison)
+  auto c = l <=> r;
+  o << " c3=" << (c < 0 ? "L" : c > 0 ? "G" : "E");
+#else
+  o << " c3=-";
+#endif
+  return o.str ();
+}
+
+template <typename T, typename A>
+static void run_cmp (const std::vector<int>& lv, const std::vector<int>& rv, const char *tag)
+{
+  typedef gch::small_vector<T, CFG_N, A> SN;
+  typedef gch::small_vector<T, CFG_M, A> SM;
+  std::vector<T> l (lv.begin (), lv.end ()), r (rv.begin (), rv.end ());
+  SN ln (l.begin (), l.end (), A (0)), rn (r.begin (), r.end (), A (0));
+  SM lm (l.begin (), l.end (), A (0)), rm (r.begin (), r.end (), A (0));
+  std::string a = cmp_bits (ln, rn), b = cmp_bits (ln, rm), c = cmp_bits (lm, rn), d = cmp_bits (lm, rm), s = cmp_bits (l, r);
+  std::printf ("%s %s\n", tag, b.c_str ());
+  if (a != s || b != s || c != s || d != s)
+    std::printf ("W! C16 comparison differs from std::vector (%s): vector %s | N,N %s | N,M %s | M,N %s | M,M %s\n", tag, s.c_str (), a.c_str (), b.c_str (), c.c_str (), d.c_str ());
+}
+
+static void run_ner (const std::vector<int>& lv, int k, bool is_if)
+{
+  typedef gch::small_vector<int, CFG_N, AllocI> SN;
+  typedef gch::small_vector<int, CFG_M, AllocI> SM;
+  SN a (lv.begin (), lv.end (), AllocI (0));
+  SM b (lv.begin (), lv.end (), AllocI (0));
+  std::vector<int> s (lv);
+  std::size_t na, nb, ns;
+  if (is_if)
+  {
+    na = erase_if (a, [k] (int x) { return x % k == 0; });
+    nb = erase_if (b, [k] (int x) { return x % k == 0; });
+    std::vector<int>::iterator it = std::remove_if (s.begin (), s.end (), [k] (int x) { return x % k == 0; });
+    ns = static_cast<std::size_t> (s.end () - it); s.erase (it, s.end ());
+  }
+  else
+  {
+    na = erase (a, k);
+    nb = erase (b, k);
+    std::vector<int>::iterator it = std::remove (s.begin (), s.end (), k);
+    ns = static_cast<std::size_t> (s.end () - it); s.erase (it, s.end ());
+  }
+  std::ostringstream o;
+  o << (is_if ? "nerif" : "ner") << " [";
+  for (std::size_t i = 0; i < a.size (); ++i) { if (i) o << ","; o << a[i]; }
+  o << "] " << na;
+  std::puts (o.str ().c_str ());
+  bool same = na == ns && nb == ns && a.size () == s.size () && b.size () == s.size ();
+  for (std::size_t i = 0; same && i < s.size (); ++i) if (a[i] != s[i] || b[i] != s[i]) same = false;
+  // members agree with the non-member accessors
+  if (begin (a) != a.begin () || end (a) != a.end () || size (a) != a.size () || empty (a) != a.empty () || data (a) != a.data ()
+      || cbegin (a) != a.cbegin () || cend (a) != a.cend () || rbegin (a) != a.rbegin () || rend (a) != a.rend ()
+      || static_cast<std::size_t> (ssize (a)) != a.size ())
+    std::puts ("W! C16 a non-member accessor disagrees with the member");
+  { SN x (lv.begin (), lv.end (), AllocI (0)), y (AllocI (0)); y.push_back (42); swap (x, y);
+    if (x.size () != 1 || x[0] != 42 || y.size () != lv.size ()) std::puts ("W! C16 non-member swap disagrees with the member"); }
+  if (! same) std::puts ("W! C16 non-member erase/erase_if differs from std::vector");
+}
+
 static void run_line (const std::string& line_in)
 {
   std::string line = line_in;
@@ -838,6 +923,23 @@ static void run_line (const std::string& line_in)
     std::puts ("reset");
     for (std::size_t k = 0; k < g_wmsgs.size (); ++k) std::puts (g_wmsgs[k].c_str ());
     return;
+  }
+  {
+    std::vector<std::string> tk; { std::istringstream is (line); std::string t; while (is >> t) tk.push_back (t); }
+    if (tk.size () == 3 && (tk[0] == "cmp" || tk[0] == "cmpw"))
+    {
+      std::vector<int> l, r;
+      if (! parse_vals (tk[1], l) || ! parse_vals (tk[2], r)) { std::puts ("bad-op"); return; }
+      if (tk[0] == "cmp") run_cmp<int, AllocI> (l, r, "cmp"); else run_cmp<Wk, AllocW> (l, r, "cmpw");
+      return;
+    }
+    if (tk.size () == 3 && (tk[0] == "ner" || tk[0] == "nerif"))
+    {
+      std::vector<int> l; long k;
+      if (! parse_vals (tk[1], l) || ! to_long (tk[2], k) || (tk[0] == "nerif" && k <= 0)) { std::puts ("bad-op"); return; }
+      run_ner (l, static_cast<int> (k), tk[0] == "nerif");
+      return;
+    }
   }
   // split off the fault suffix
   std::size_t at = line.find (" @");
@@ -955,7 +1057,7 @@ static void run_line (const std::string& line_in)
       if (! same) wmsg ("C05", o + ": threw (" + exc + ") and the contents changed");
       if (o != "app" && (after.f.cap != before_x.f.cap || after.f.data != before_x.f.data)) wmsg ("C05", o + ": threw (" + exc + ") and capacity()/data() changed");
       std::size_t blocks_now = 0; for (std::size_t i = 0; i < g_blocks.size (); ++i) if (g_blocks[i].heap) ++blocks_now;
-      if (blocks_now != blocks_before) wmsg ("C05", o + ": threw (" + exc + ") and the number of live blocks changed");
+      if (o != "app" && blocks_now != blocks_before) wmsg ("C05", o + ": threw (" + exc + ") and the number of live blocks changed");
     }
   }
   // C12: length_error leaves the container unchanged
@@ -1022,7 +1124,11 @@ static void run_line (const std::string& line_in)
     if (stolen)
     {
       long expected_events = o == "asm" ? static_cast<long> (before_x.f.size) : 0;   // only the destruction of the old contents
+#ifndef E_TRIVIAL
       if (g_elem_events_this_op != expected_events) wmsg ("C09", o + ": element operations on a transferred buffer");
+#else
+      (void) expected_events;
+#endif
       if (fy.size != 0 || ! fy.inlined) wmsg ("C09", o + ": stolen-from source is not empty and inlined");
       if (g_allocs_this_op != 0) wmsg ("C09", o + ": allocation during a steal");
     }
